@@ -78,15 +78,30 @@ Definition rtd_quartic (a b c r_0 r_t t : R) : R :=
 
 (* A complex number is a pair (real part, imaginary part).
    def _get_negative_real_root(roots):
-       filtered = [r for r in roots if not np.iscomplex(r) and r.real < 0.0]
+       # A resistance only marginally below R0 has a root that is zero to within
+       # rounding error, which may be found as 0.0 or as a tiny positive number;
+       # the other real root is positive and far away from zero.
+       filtered = [r for r in roots if not np.iscomplex(r) and r.real < 1e-9]
        if len(filtered) != 1: raise ValueError(...)
        return filtered[0].real
-   np.iscomplex(r) is  r.imag != 0. *)
-Definition is_negative_real (z : R * R) : bool :=
-  if Req_EM_T (snd z) 0 then (if Rlt_dec (fst z) 0 then true else false) else false.
+   np.iscomplex(r) is  r.imag != 0.
+   (/repo commit 874ad35, defect D23; before it the test was  r.real < 0.0 .
+   The old filter is kept, for comparison only, in Proofs/SensorsProofs.v.) *)
+
+(* the literal 1e-9 of the filter, read as the decimal it is written as, like
+   every other literal of this model (its binary64 value
+   0x1.12e0be826d695p-30 differs from 10^-9 by less than 7e-26; nothing
+   proved here depends on which of the two is meant, only on 0 < tolerance
+   and on the parameter condition  A + B * tolerance >= 0). *)
+Definition RTD_ROOT_TOLERANCE : R := 1e-9.
+
+Definition is_small_real (z : R * R) : bool :=
+  if Req_EM_T (snd z) 0
+  then (if Rlt_dec (fst z) RTD_ROOT_TOLERANCE then true else false)
+  else false.
 
 Definition get_negative_real_root (roots : list (R * R)) : option R :=
-  match filter is_negative_real roots with
+  match filter is_small_real roots with
   | [z] => Some (fst z)
   | _ => None
   end.
@@ -94,7 +109,7 @@ Definition get_negative_real_root (roots : list (R * R)) : option R :=
 Section RtdScale.
   (* numpy.polynomial.polynomial.polyroots (companion-matrix eigenvalues) is an
      oracle: a section variable, never an axiom.  What is assumed of it where a
-     theorem needs it is [negative_roots_ok] below, stated in the theorem. *)
+     theorem needs it is [small_roots_ok] below, stated in the theorem. *)
   Variable polyroots : list R -> list (R * R).
 
   (* def _solve_quartic_form(self, r_t):
@@ -115,14 +130,16 @@ Section RtdScale.
 End RtdScale.
 
 (* What is assumed of polyroots' answer [roots] for coefficient list [cs]
-   (only about its negative real part, which is all the code looks at):
-   a negative real number is listed iff it is a root, and no negative real
-   root is listed twice (polyroots lists a root as often as its multiplicity;
-   the negative real roots of the RTD quartic are simple, lemma
+   (only about the part the code looks at, the real entries below the
+   tolerance): a real number below the tolerance is listed iff it is a root,
+   and no such root is listed twice (polyroots lists a root as often as its
+   multiplicity; the real roots of the RTD quartic below the tolerance are
+   simple: for a resistance below R0 they are negative, lemma
+   rtd_quartic_pos_near_zero, and the derivative is positive there, lemma
    rtd_quartic_derivative_pos). *)
-Definition negative_roots_ok (roots : list (R * R)) (cs : list R) : Prop :=
-  NoDup (filter is_negative_real roots) /\
-  forall x : R, x < 0 -> (In (x, 0) roots <-> polyval x cs = 0).
+Definition small_roots_ok (roots : list (R * R)) (cs : list R) : Prop :=
+  NoDup (filter is_small_real roots) /\
+  forall x : R, x < RTD_ROOT_TOLERANCE -> (In (x, 0) roots <-> polyval x cs = 0).
 
 (* ------------------------------------------------------------------------ *)
 (* ThermistorScaling.scale
